@@ -4,7 +4,6 @@
 
 use std::collections::BTreeMap;
 
-use crate::batch::run_and_judge;
 use crate::check::*;
 use crate::corpus;
 use crate::driver::WorkerError;
@@ -23,17 +22,38 @@ pub const ZONES: &[&str] = &[
 /// Functions that are allowed to interpret zone-less wall-clock text with the configured timezone.
 pub const ALLOWED: &[&str] = &[
     "parse_timestamp", "parse_syslog", "parse_linux_authorization", "parse_apache_log", "parse_common_log",
-    "parse_nginx_log", "get_timezone_name", "\"local\"",
+    "parse_nginx_log", "get_timezone_name",
 ];
 
 /// pinned instants (unix seconds): mid-year, new year's eve, DST changeover days, leap day
 pub const CLOCKS: &[i64] = &[1_700_000_000, 1_703_980_799, 1_704_067_201, 1_615_705_199, 1_636_263_000, 1_709_164_800, 1_616_895_000];
 
-pub fn judge(session: &SessionSpec, res: &Res) -> Result<Vec<Violation>, String> {
+fn ref_key(w: &WorldSpec, prog: usize, event: usize) -> String {
+    format!("{}|{}|{:?}", w.programs[prog].source, serde_json::to_string(&w.events[event]).unwrap(), w.clock)
+}
+
+/// `reference`: sessions that ran the same (program, event, clock) under UTC with no TZ variable at all. Judged
+/// programs must give the same outcome there as under any configured zone AND any TZ environment (an explicit-zone
+/// operation must not start to depend on the process environment either).
+pub fn judge(session: &SessionSpec, res: &Res, reference: &[SessionSpec], ref_res: &[Res]) -> Result<Vec<Violation>, String> {
     let res = match res {
         Ok(r) => r,
         Err(e) => return Err(format!("worker failed: {e}")),
     };
+    let mut table: BTreeMap<String, String> = BTreeMap::new();
+    for (rs, rr) in reference.iter().zip(ref_res.iter()) {
+        let Ok(rr) = rr else { continue };
+        for (w, wr) in rs.worlds.iter().zip(rr.worlds.iter()) {
+            for o in &wr.obs {
+                let Some(node) = w.nodes.get(o.node) else { continue };
+                if let Some(Op::Run { prog, event, tag, .. }) = node.ops.get(o.op) {
+                    if tag == "tz:judged" && o.kind == "run" {
+                        table.entry(ref_key(w, *prog, *event)).or_insert_with(|| o.outcome.clone());
+                    }
+                }
+            }
+        }
+    }
     let mut out = vec![];
     for (w, wr) in session.worlds.iter().zip(res.worlds.iter()) {
         // control: nodes 0 and 1 run under the same zone; if they already disagree the program is not
@@ -56,8 +76,24 @@ pub fn judge(session: &SessionSpec, res: &Res) -> Result<Vec<Violation>, String>
         for o in &wr.obs {
             let Some(node) = w.nodes.get(o.node) else { continue };
             let Some(Op::Run { prog, event, tag, .. }) = node.ops.get(o.op) else { continue };
-            if tag != "tz:judged" || o.kind != "run" || unstable.contains(&(*prog, *event)) {
+            if (tag != "tz:judged" && tag != "tz:judged-env") || o.kind != "run" || unstable.contains(&(*prog, *event)) {
                 continue;
+            }
+            // programs with an explicit `timezone: "local"` legitimately follow the TZ variable: they are compared across
+            // the configured zones of one session only, not with the TZ-less reference
+            if let Some(expected) = table.get(&ref_key(w, *prog, *event)).filter(|_| tag == "tz:judged") {
+                if *expected != o.outcome {
+                    out.push(Violation {
+                        property: "C36".into(),
+                        class: "timezone-dependent-result".into(),
+                        at: format!("world {} node {} op {} (tz {}, TZ env {:?}, clock {:?})", w.id, o.node, o.op, node.tz, session.tz_env, w.clock),
+                        program: prog_desc(w, *prog),
+                        observed: o.outcome.clone(),
+                        expected: expected.clone(),
+                        note: format!("expected = the same run under configured UTC in a process without a TZ variable; event {}", serde_json::to_string(&w.events[*event]).unwrap()),
+                    });
+                    continue;
+                }
             }
             match first.get(&(*prog, *event)) {
                 None => {
@@ -97,7 +133,7 @@ pub fn run(ctx: &Ctx) -> ! {
         if !c.comparable() || c.diagnostics {
             continue;
         }
-        let explicit = c.tags.iter().any(|t| t == "tz-explicit");
+        let explicit = c.tags.iter().any(|t| t == "tz-explicit" || t == "tz-local-arg");
         let zoneless = c.tags.iter().any(|t| t == "tz-zoneless");
         let calls_allowed = ALLOWED.iter().any(|f| c.program.source.contains(f));
         if explicit || (!zoneless && !calls_allowed) {
@@ -151,12 +187,26 @@ pub fn run(ctx: &Ctx) -> ! {
                         hash_seed: 1,
                         own_clone: false,
                         ref_backing: false,
-                        ops: (0..events.len()).map(|e| Op::Run { prog: 0, event: e, fresh_runtime: true, faults: FaultPlan::default(), tag: if *is_judged { "tz:judged".into() } else { "tz:probe".into() } }).collect(),
+                        ops: (0..events.len())
+                            .map(|e| Op::Run {
+                                prog: 0,
+                                event: e,
+                                fresh_runtime: true,
+                                faults: FaultPlan::default(),
+                                tag: if !*is_judged {
+                                    "tz:probe".into()
+                                } else if c.program.source.contains("\"local\"") || c.tags.iter().any(|t| t == "tz-local-arg") {
+                                    "tz:judged-env".into()
+                                } else {
+                                    "tz:judged".into()
+                                },
+                            })
+                            .collect(),
                     })
                     .collect();
                 worlds.push(WorldSpec {
                     id: format!("tz{round}s{si}w{ci}"),
-                    clock: Some(CLOCKS[rng.below(CLOCKS.len())]),
+                    clock: Some(CLOCKS[(ci + si * 7 + round) % CLOCKS.len()]),
                     coord_hash_seed: 1,
                     programs: vec![c.program.clone()],
                     events,
@@ -170,12 +220,64 @@ pub fn run(ctx: &Ctx) -> ! {
             }
             sessions.push(SessionSpec { seed: ctx.seed, tz_env: Some(tz_env), layout_salt: 0, worlds });
         }
-        let results = run_and_judge(ctx, "c36", &sessions, &mut rep, &mut ev, true);
+        // reference arm: the same worlds with a single UTC node and no TZ variable
+        let references: Vec<SessionSpec> = sessions
+            .iter()
+            .map(|s| SessionSpec {
+                seed: s.seed,
+                tz_env: None,
+                layout_salt: 0,
+                worlds: s
+                    .worlds
+                    .iter()
+                    .map(|w| {
+                        let mut r = w.clone();
+                        r.id = format!("{}ref", w.id);
+                        r.nodes.truncate(1);
+                        r.nodes[0].tz = "UTC".into();
+                        r.fresh_threads = true; // same hash seeds as the nodes it is compared with
+                        r
+                    })
+                    .collect(),
+            })
+            .collect();
+        let ref_results = crate::driver::run_all(&references, ctx.par, ctx.session_timeout, |_, _| {});
+        let run_results = crate::driver::run_all(&sessions, ctx.par, ctx.session_timeout, |_, _| {});
+        let mut results: Vec<Option<SessionResult>> = vec![];
+        for ((spec, res), (rspec, rres)) in sessions.iter().zip(run_results.into_iter()).zip(references.iter().zip(ref_results.into_iter())) {
+            ev.sessions += 2;
+            if let Ok(r) = &res {
+                for w in &r.worlds {
+                    ev.absorb_world(w);
+                }
+            } else {
+                ev.worker_errors += 1;
+            }
+            match judge(spec, &res, std::slice::from_ref(rspec), std::slice::from_ref(&rres)) {
+                Ok(vs) => {
+                    for v in vs {
+                        let wid = v.at.strip_prefix("world ").and_then(|s| s.split(' ').next()).unwrap_or("").to_string();
+                        let pick = |s: &SessionSpec, id: &str| -> SessionSpec {
+                            match s.worlds.iter().find(|w| w.id == id) {
+                                Some(w) => SessionSpec { worlds: vec![w.clone()], ..s.clone() },
+                                None => s.clone(),
+                            }
+                        };
+                        rep.candidate(v, "c36", pick(spec, &wid), vec![pick(rspec, &format!("{wid}ref"))]);
+                    }
+                }
+                Err(e) => {
+                    eprintln!("HARNESS: {e}");
+                    ev.worker_errors += 1;
+                }
+            }
+            results.push(res.ok());
+        }
         for (s, r) in sessions.iter().zip(results.iter()) {
             let Some(r) = r else { continue };
             for (w, wr) in s.worlds.iter().zip(r.worlds.iter()) {
                 ev.evaluations += 1;
-                let is_judged = matches!(w.nodes[0].ops.first(), Some(Op::Run { tag, .. }) if tag == "tz:judged");
+                let is_judged = matches!(w.nodes[0].ops.first(), Some(Op::Run { tag, .. }) if tag.starts_with("tz:judged"));
                 let outcomes: std::collections::BTreeSet<&str> = wr.obs.iter().filter(|o| o.kind == "run" && o.op == 0).map(|o| o.outcome.as_str()).collect();
                 if !is_judged && outcomes.len() > 1 {
                     tz_changed += 1;
